@@ -8,6 +8,12 @@ props = [json.loads(l) for l in open(os.path.join(HERE, "properties.jsonl"))]
 TRUST = "TLC 1.8 and the CommunityModules Json reader; the harness projection/wrappers (harness/project.py, record.py); CPython as executor of the library."
 
 CHECKS = {
+    "C12": dict(cat="other", ref="DESIGN 8/C12",
+                text="Each input is restructured with full tracing in separate processes under K values of PYTHONHASHSEED (4 quick / 16 thorough); TLC walks the runs in lockstep (Determinism.tla, self-composition) and fails at the first operation whose canonical event - names, ordered deltas, tables, counters, dictionary insertion order - differs. The decisive ingredient is the real multi-process run; TLA+ contributes the lockstep comparison.",
+                technique="TLC lockstep comparison (2-safety by self-composition, Determinism.tla) of behaviours recorded in separate processes under different hash seeds"),
+    "C17": dict(cat="model_checking", ref="DESIGN 8/C17",
+                text="After every stage of every behaviour the DOT source of SCFGRenderer (and ByteFlowRenderer for bytecode graphs) is parsed into nodes, cluster tree, solid/dashed edges and label facts; TLC (Props!DrawingOK) checks them against the recorded hierarchy. TLA+ contributes the definition of the expected drawing; the DOT tokenizer is harness code in the trusted base.",
+                technique="TLA+ contract predicate (Props!DrawingOK) evaluated by TLC on drawings recorded from the implementation"),
     "C09": dict(cat="model_checking", ref="DESIGN 8/C09",
                 text="TLC (ByteCFG.tla) enumerates every well-formed abstract instruction stream of <=4 (thorough: <=5) instructions and checks the transcription of FlowInfo against the contract (Partition, EntryOnlyAtFirst, LeaveOnlyAfterLast, SuccExact); each stream is instantiated with every conditional / unconditional / returning opcode the interpreter defines and fed to the real FlowInfo; every eligible function of ~100 std-lib modules is built by the real code under Python 3.12 and 3.11 and judged by TLC against the same contract with instruction classes from the interpreter's own opcode metadata.",
                 technique="TLC small-scope model checking of ByteCFG.tla plus trace validation of (instruction stream, built blocks) pairs recorded from the implementation"),
